@@ -944,7 +944,9 @@ fn gen_fn(ctx: &mut Ctx, fs_: &FnSpec) -> R<()> {
         let body = c2.text.trim().to_string();
         all_clauses.push(c2);
         let is_ghost = all_clauses[idx].kind == "ghost";
-        let body = if is_ghost {
+        let body = if all_clauses[idx].kind == "assert" {
+            format!("{{ assert({}); }}", body.trim())
+        } else if is_ghost {
             body.trim().trim_start_matches('{').trim_end_matches('}').trim().to_string()
         } else {
             body
@@ -978,6 +980,7 @@ fn gen_fn(ctx: &mut Ctx, fs_: &FnSpec) -> R<()> {
         }
     }
     let lets_dbg = v.lets.clone();
+    let n_closures = v.closures.len();
     let mut edits = v.edits;
     ctx.out.push_str("    ");
     let gb = ctx.out.len();
@@ -1007,6 +1010,109 @@ fn gen_fn(ctx: &mut Ctx, fs_: &FnSpec) -> R<()> {
         "src_line": line_of(text, span.0), "gen": [gen_base, ctx.out.len()],
         "segments": segs, "clauses": cj, "rules": rules, "twin": twin_range,
         "n_loops": fs_.loops.len(), "lets": lets_dbg,
+        "closures_total": n_closures, "closures_with_contract": fs_.closure_heads.len(),
+    }));
+    Ok(())
+}
+
+/// A function that cannot be brought under contract on this tree: its signature is kept (with the sidecar's stand-in
+/// parameter list, if any), its body is replaced by `unimplemented!()` under `external_body`.  Functions that other
+/// extracted functions call (no E9/E12) keep their clauses, so that callers are still verified against the contract;
+/// every clause of a stubbed function is reported as UNDECIDED by the driver, never as discharged.
+fn gen_stub(ctx: &mut Ctx, fs_: &FnSpec, reason: &str) -> R<()> {
+    let gen_base = ctx.out.len();
+    let srcfile = fs_.file.clone();
+    ctx.src(&srcfile)?;
+    let srcs = &ctx.srcs[&srcfile];
+    let text = &srcs.text;
+    let (attrs, vis, sig, block, span) = match find(&srcs.ast, &fs_.path)? {
+        Found::Fn { attrs, vis, sig, block, span, .. } => (attrs, vis, sig, block, span),
+        _ => return fail(format!("{} is not a function", fs_.path)),
+    };
+    let mut edits: Vec<Edit> = vec![];
+    let mut seq = 0usize;
+    attr_edits(attrs, &mut edits, &mut seq, text);
+    if fs_.opts.iter().any(|o| o == "private") {
+        if let syn::Visibility::Public(p) = vis {
+            let (a, b) = br(p.span());
+            seq += 1;
+            edits.push(Edit { start: a, end: b, text: String::new(), rule: "E14".into(), seq, marks: vec![] });
+        }
+    } else {
+        vis_edit(vis, &mut edits, &mut seq);
+    }
+    let hoisted = fs_.opts.iter().any(|o| o == "hoist_txn");
+    if let Some(newsig) = &fs_.sig {
+        let (ps, pe) = br(sig.paren_token.span.join());
+        seq += 1;
+        edits.push(Edit { start: ps, end: pe, text: newsig.clone(), rule: "E12".into(), seq, marks: vec![] });
+    }
+    let retname = fs_.ret.clone().unwrap_or_else(|| "r".into());
+    if let syn::ReturnType::Type(_, ty) = &sig.output {
+        let (ts, te) = br(ty.span());
+        seq += 1;
+        edits.push(Edit { start: ts, end: ts, text: format!("({retname}: "), rule: "E2".into(), seq, marks: vec![] });
+        seq += 1;
+        edits.push(Edit { start: te, end: te, text: ")".into(), rule: "E2".into(), seq, marks: vec![] });
+    }
+    edits.push(Edit { start: span.0, end: span.0, text: "#[verifier::external_body]\n    ".into(), rule: "STUB".into(), seq: 0, marks: vec![] });
+    let (bo, _) = br(block.brace_token.span.open());
+    let (_, bc) = br(block.brace_token.span.close());
+    let mut clauses: Vec<Clause> = vec![];
+    let mut marks = vec![];
+    let mut ctext = String::new();
+    // keep the contract only when the clauses can still be stated over the (unchanged) parameter list
+    let keep = !hoisted && fs_.sig.is_none();
+    for c in &fs_.clauses {
+        clauses.push(Clause { place: "fn".into(), ..c.clone() });
+    }
+    if keep {
+        let req: Vec<(usize, &Clause)> = clauses.iter().enumerate().filter(|(_, c)| c.kind == "requires").collect();
+        let ens: Vec<(usize, &Clause)> = clauses.iter().enumerate().filter(|(_, c)| c.kind == "ensures").collect();
+        ctext.push_str(&render_clauses("requires", &req, "        ", &mut marks, 0));
+        let l1 = ctext.len();
+        ctext.push_str(&render_clauses("ensures", &ens, "        ", &mut marks, l1));
+    }
+    ctext.push_str("    { unimplemented!() }");
+    seq += 1;
+    edits.push(Edit { start: bo, end: bc, text: ctext, rule: "STUB".into(), seq, marks });
+    ctx.out.push_str("    ");
+    let gb = ctx.out.len();
+    let (body, segs, _marks) = apply_edits(text, span, &mut edits, gb)?;
+    ctx.out.push_str(&body);
+    ctx.out.push('\n');
+    // every clause of the sidecar (fn-level, loops, closures, proof blocks) is listed, undecided
+    let mut cj = vec![];
+    let mut all: Vec<Clause> = clauses;
+    for (k, cls) in &fs_.loops {
+        for c in cls {
+            all.push(Clause { place: format!("loop {k}"), ..c.clone() });
+        }
+    }
+    for (k, cls) in &fs_.closures {
+        for c in cls {
+            all.push(Clause { place: format!("closure {k}"), ..c.clone() });
+        }
+    }
+    for (a, c) in &fs_.proofs {
+        all.push(Clause { place: a.clone(), ..c.clone() });
+    }
+    for cls in fs_.nested.values() {
+        for c in cls {
+            all.push(c.clone());
+        }
+    }
+    for c in &all {
+        if c.kind == "ghost" {
+            continue;
+        }
+        cj.push(json!({"id": c.id, "tags": c.tags, "kind": c.kind, "place": c.place, "gen": [0, 0], "text": c.text.trim()}));
+    }
+    ctx.trust.push(json!({"kind": "stub", "fn": fs_.path, "text": format!("function {} stubbed on this tree: {}", fs_.path, reason)}));
+    ctx.items.push(json!({
+        "kind": "fn", "path": fs_.path, "file": fs_.file, "src": [span.0, span.1], "src_line": line_of(text, span.0), "gen": [gen_base, ctx.out.len()],
+        "segments": segs, "clauses": cj, "rules": ["STUB"], "twin": Value::Null, "n_loops": 0, "lets": Vec::<String>::new(),
+        "closures_total": 0, "closures_with_contract": 0, "stubbed": reason,
     }));
     Ok(())
 }
@@ -1344,6 +1450,14 @@ fn run(auto_consts: &Vec<(String, String)>) -> R<Vec<(String, String)>> {
                                     v.push(Clause { kind: format!("nested_{kind0}"), id, tags, text, place: String::new() });
                                     cur = Cur::Nested(name, v.len() - 1);
                                 }
+                                "assert" => {
+                                    // assert <anchor...> [id tags] <expr>  -- a state obligation at a program point (NOT proof glue)
+                                    let p0 = rest.find('[').ok_or(Fail(format!("assert needs [id tags] at line {}", i + 1)))?;
+                                    let anchor = rest[..p0].trim().to_string();
+                                    let (id, tags, text) = parse_clause_head(&rest[p0..]);
+                                    f.proofs.push((anchor, Clause { kind: "assert".into(), id, tags, text, place: String::new() }));
+                                    cur = Cur::Proof(f.proofs.len() - 1);
+                                }
                                 "proof" | "ghost" => {
                                     // proof <anchor...> [id tags] {   (ghost: the block's statements are inserted bare, e.g. `let ghost x = y;`)
                                     let (anchor, after) = match rest.find('[') {
@@ -1389,7 +1503,26 @@ fn run(auto_consts: &Vec<(String, String)>) -> R<Vec<(String, String)>> {
                         }
                         i += 1;
                     }
-                    gen_fn(&mut ctx, &f)?;
+                    let stub_list: Vec<String> = std::env::var("TCSS_STUB").unwrap_or_default().split(',').map(|x| x.trim().to_string()).filter(|x| !x.is_empty()).collect();
+                    let key = format!("{}#{}", f.file, f.path);
+                    if stub_list.iter().any(|x| *x == key) {
+                        gen_stub(&mut ctx, &f, "the body uses a construct outside the verifier's reach on this tree (see the driver's message)")?;
+                    } else {
+                        let save_out = ctx.out.len();
+                        let save_items = ctx.items.len();
+                        let save_trust = ctx.trust.len();
+                        match gen_fn(&mut ctx, &f) {
+                            Ok(()) => {}
+                            Err(Fail(m)) => {
+                                // a lost anchor / unsupported shape in ONE function: that function is left to the bounded legs,
+                                // the rest of the unit is still verified
+                                ctx.out.truncate(save_out);
+                                ctx.items.truncate(save_items);
+                                ctx.trust.truncate(save_trust);
+                                gen_stub(&mut ctx, &f, &m)?;
+                            }
+                        }
+                    }
                 }
                 Some("autoconsts") => {
                     // E15: constants discovered in a first pass (used by extracted bodies, defined in the same file)
